@@ -289,7 +289,12 @@ impl<F: Field> Region<'_, F> {
         let cell =
             self.region.assign_advice(&|| annotation().into(), column, offset, &mut || {
                 let v = to();
+                #[cfg(feature = "verif-hooks")]
+                let (v, verif_table_value) =
+                    crate::verif::tamper::<F, VR>(v, column.index(), offset);
                 let value_f = v.to_field();
+                #[cfg(feature = "verif-hooks")]
+                let value_f = verif_table_value.unwrap_or(value_f);
                 value = v;
                 value_f
             })?;
